@@ -55,7 +55,7 @@ func c12Lane(c *Ctx, fn *ssa.Function) {
 		maxu = "4294967295"
 	}
 	J := "ind<+1>(call<math/bits.TrailingZeros>(un<^>(" + V + ")))"
-	loop1 := len(edgesMatching(b, "bin<<>("+I+", 243)")) == 1
+	loop1 := countEdgesDeep(c, b, "bin<<>("+I+", 243)") == 1
 	allNon := plainEdges(edgesMatching(b, "bin<==>("+V+", "+maxu+")"))
 	someZero := plainEdges(edgesMatching(b, "bin<!=>("+V+", "+maxu+")"))
 	fast := plainEdges(edgesMatching(b, "bin<!=>("+W+", "+maxu+")"))
